@@ -80,7 +80,8 @@ class C13(Prop):
     def strategy(self, tier):
         kinds = ('repo',) if tier == 'quick' else ('repo', 'stdlib3.12')
         w = {'stmt': 6, 'kw': 4, 'fquote': 2, 'fbit': 3, 'comment': 2}
-        return st.fixed_dictionaries({'code': T.adversarial_text(corpus_kinds=kinds, weights=w, nest_depth=30), 'version': T.version()})
+        return st.fixed_dictionaries({'code': T.adversarial_text(corpus_kinds=kinds, weights=w, nest_depth=30), 'version': T.version(),
+                                      'earlier': st.lists(T.soup(6, w), max_size=2)})
 
     def check(self, case):
         code, v = case['code'], case['version']
@@ -94,6 +95,24 @@ class C13(Prop):
             return Outcome(fail=crash_signature(e), nontrivial=True, key=digest(code, v))
         err = has_error(m)
         classes = []
+        if fail is None and case.get('earlier'):
+            # coherence must not depend on where the tree came from: the same text reached through diff_cache updates of
+            # one module object, with the issues listed on every intermediate state
+            from .c20 import diff_parse
+            from ..common import first_tree_diff
+            texts = [e + code for e in case['earlier']] + [code]
+            try:
+                md = diff_parse(g, texts, digest(code, v).hex(), after_each=lambda mod: list(g.iter_errors(mod)))
+                if first_tree_diff(m, md) is None:
+                    classes.append('diff-provenance-compared')
+                    a = [issue_tuple(i) for i in issues]
+                    b = [issue_tuple(i) for i in g.iter_errors(md)]
+                    if a != b:
+                        fail = ('issues-differ-after-incremental-reparse', 'fresh %r vs incremental %r' % (a[:5], b[:5]))
+            except RecursionError:
+                pass
+            except Exception:
+                classes.append('diff-parser-raised(C04)')
         if err:
             classes.append('error-node')
         if issues:
